@@ -865,6 +865,51 @@ static void rules_case(vf::Case& c, Index n, long seed, int sel, int sort, int f
             c.cls("follow_not_compared_fresh_run_unconverged");
         c.feat["leak_blocks"] = (double) (L1 - L0);
         VF_CHECK(L1 == L0, "leak_after_compute_case", Rig::name() << ": " << (L1 - L0) << " heap block(s) still live after the solver that " << (accept ? "accepted" : "rejected") << " compute() was destroyed");
+        // The Davidson solver has a second entry point that takes the selection rule, compute_with_guess(): the same rules are documented
+        // for it, whatever the user's initial space looks like - unit vectors, or exact eigenvectors (the iteration is over before it starts and
+        // only as many Ritz pairs exist as the guess has columns: a single one for nev = 1).
+        if constexpr (Rig::family == FAM_DAV)
+        {
+            Eigen::SelfAdjointEigenSolver<Mat> es(sym_matrix(n, seed, 0));
+            for (Index gnev = 1; gnev <= 2; gnev++)
+                for (int gkind = 0; gkind < 3; gkind++)
+                {
+                    const Index gcols = gnev + (gkind == 2 ? 1 : 0);
+                    Mat guess = Mat::Zero(n, gcols);
+                    if (gkind == 0)
+                        for (Index j = 0; j < gcols; j++)
+                            guess(j, j) = 1;
+                    else
+                        guess = es.eigenvectors().rightCols(gcols);  // exact eigenvectors of the largest eigenvalues
+                    const long G0 = c12::live();
+                    bool threw = false, other = false;
+                    {
+                        Rig rg(n, 0, seed);
+                        std::unique_ptr<typename Rig::Solver> G(rg.make(gnev, 0));
+                        try
+                        {
+                            G->compute_with_guess(guess, RULES[sel], MAXIT, 1e-10);
+                        }
+                        catch (const std::invalid_argument&)
+                        {
+                            threw = true;
+                        }
+                        catch (...)
+                        {
+                            other = true;
+                        }
+                    }
+                    const long G1 = c12::live();
+                    static const char* const GK[3] = {"unit vectors", "exact eigenvectors", "exact eigenvectors, nev+1 columns"};
+                    VF_CHECK(!other, "wrong_exception_type", Rig::name() << " compute_with_guess(" << GK[gkind] << ", " << RULE_NAMES[sel] << ") nev=" << gnev << " raised something other than std::invalid_argument");
+                    if (sel_ok)
+                        VF_CHECK(!threw, "valid_rule_rejected", Rig::name() << " compute_with_guess(" << GK[gkind] << ", " << RULE_NAMES[sel] << ") nev=" << gnev << " threw although the rule is documented for this solver");
+                    else
+                        VF_CHECK(threw, "invalid_rule_accepted", Rig::name() << " compute_with_guess(" << GK[gkind] << ", " << RULE_NAMES[sel] << ") nev=" << gnev << " did not throw although the selection rule is not documented for this solver");
+                    VF_CHECK(G1 == G0, "leak_after_compute_case", Rig::name() << ": " << (G1 - G0) << " heap block(s) still live after compute_with_guess(" << GK[gkind] << ", " << RULE_NAMES[sel] << ")");
+                }
+            c.cls("davidson_compute_with_guess_rules");
+        }
     }
 }
 
